@@ -5,5 +5,5 @@ CONSTANTS
   Depths = {0, 3}
   MaxImports = 2
   AliasSet = {""}
-  FaultKinds = {"read", "importsyntax", "body", "foreign"}
+  FaultKinds = {"read", "importsyntax", "body", "foreign", "compiled"}
 CHECK_DEADLOCK FALSE
